@@ -291,3 +291,272 @@ class Facts:
                 if pred(callee_names(t), t):
                     out.append((b, i, t))
         return out
+
+
+# ---------------------------------------------------------------------------------------------
+# One level of inlining on the MIR facts. Extracting a block of a function into a private helper is
+# the most common behaviour-preserving refactoring; dominance / guard / path rules written for the
+# original function see the same control flow again when the helper is inlined at its call site.
+import copy as _copy
+
+
+def _shift_place(p, L):
+    q = {'l': p['l'] + L}
+    if p.get('p'):
+        proj = []
+        for e in p['p']:
+            if isinstance(e, dict) and 'idx' in e:
+                e = dict(e, idx=e['idx'] + L)
+            proj.append(e)
+        q['p'] = proj
+    return q
+
+
+def _shift_operand(o, L):
+    if 'cp' in o:
+        return {'cp': _shift_place(o['cp'], L)}
+    if 'mv' in o:
+        return {'mv': _shift_place(o['mv'], L)}
+    return o
+
+
+def _shift_rvalue(rv, L):
+    rv = dict(rv)
+    for k in ('o', 'a', 'b'):
+        if k in rv and isinstance(rv[k], dict):
+            rv[k] = _shift_operand(rv[k], L)
+    if 'pl' in rv:
+        rv['pl'] = _shift_place(rv['pl'], L)
+    if 'ops' in rv:
+        rv['ops'] = [_shift_operand(o, L) for o in rv['ops']]
+    return rv
+
+
+def _shift_block(blk, L, B, ret_to, dest, callee_file):
+    out = {'s': [], 't': None}
+    for s in blk['s']:
+        s2 = dict(s)
+        if 'lhs' in s2:
+            s2['lhs'] = _shift_place(s2['lhs'], L)
+        if 'rv' in s2:
+            s2['rv'] = _shift_rvalue(s2['rv'], L)
+        if s2.get('k') == 'dead':
+            s2['l'] = s2['l'] + L
+        if callee_file and not s2.get('file'):
+            s2['file'] = callee_file
+        out['s'].append(s2)
+    t = dict(blk['t'])
+    k = t['k']
+    if callee_file and not t.get('file'):
+        t['file'] = callee_file
+    if k == 'return':
+        # _0' -> destination of the inlined call, then continue after the call
+        out['s'].append({'k': 'assign', 'lhs': dest, 'rv': {'k': 'use', 'o': {'mv': {'l': L}}}, 'line': t.get('line'),
+                         'file': t.get('file')})
+        out['t'] = {'k': 'goto', 'to': ret_to, 'line': t.get('line'), 'file': t.get('file')} if ret_to is not None \
+            else {'k': 'unreachable', 'line': t.get('line')}
+        return out
+    for key in ('to', 'else', 'imag', 'drop'):
+        if t.get(key) is not None and isinstance(t.get(key), int):
+            t[key] = t[key] + B
+    if 'unwind' in t and isinstance(t.get('unwind'), int):
+        t['unwind'] = t['unwind'] + B
+    if k == 'switch':
+        t['ts'] = [[v, b + B] for v, b in t['ts']]
+        t['d'] = _shift_operand(t['d'], L)
+    if k == 'call':
+        t['a'] = [_shift_operand(a, L) for a in t['a']]
+        t['dest'] = _shift_place(t['dest'], L)
+        if 'indirect' in t['f']:
+            t['f'] = dict(t['f'], indirect=_shift_operand(t['f']['indirect'], L))
+    if k == 'drop':
+        t['pl'] = _shift_place(t['pl'], L)
+    if k == 'assert':
+        t['cond'] = _shift_operand(t['cond'], L)
+    if k == 'yield':
+        t['v'] = _shift_operand(t['v'], L)
+    out['t'] = t
+    if blk.get('cleanup'):
+        out['cleanup'] = True
+    return out
+
+
+def inline_helpers(F, body, accept, max_blocks=120):
+    """A copy of `body` in which every call whose resolved callee satisfies accept(callee_path) - and is a
+    synchronous, non-recursive function of the workspace with a body of at most max_blocks blocks - is
+    replaced by the callee's blocks (arguments assigned to its parameters, its return value assigned to
+    the call's destination). One level only. Returns `body` itself when nothing was inlined."""
+    todo = []
+    for i, blk in enumerate(body.blocks):
+        t = blk['t']
+        if t['k'] != 'call':
+            continue
+        callee = t['f'].get('def')
+        if not callee or callee == body.fn or callee == body.root:
+            continue
+        cb = F.bodies.get(callee)
+        if cb is None or cb.d.get('coroutine') or (F.fns.get(callee) or {}).get('async') or len(cb.blocks) > max_blocks:
+            continue
+        if not accept(callee):
+            continue
+        if len(t['a']) != cb.argc:
+            continue
+        todo.append((i, t, cb))
+    if not todo:
+        return body
+    d = _copy.deepcopy(body.d)
+    for i, t, cb in todo:
+        L = len(d['locals'])
+        B = len(d['blocks'])
+        d['locals'].extend(_copy.deepcopy(cb.locals))
+        cfile = cb.file if cb.file != body.file else None
+        for blk in cb.blocks:
+            d['blocks'].append(_shift_block(blk, L, B, t.get('to'), t['dest'], cfile))
+        head = d['blocks'][i]
+        for n, a in enumerate(t['a']):
+            head['s'].append({'k': 'assign', 'lhs': {'l': L + 1 + n}, 'rv': {'k': 'use', 'o': a}, 'line': t.get('line')})
+        head['t'] = {'k': 'goto', 'to': B, 'line': t.get('line'), 'inlined': callee_name(t)}
+        _thread_returns(F, d, B, L, cb, t)
+    nb = Body(d, body.crate)
+    nb.inlined_from = [cb.fn for _, _, cb in todo]
+    return nb
+
+
+_STD_VARIANT_INDEX = {'None': 0, 'Some': 1, 'Ok': 0, 'Err': 1, 'Continue': 0, 'Break': 1, 'Ready': 0, 'Pending': 1}
+
+
+def _thread_returns(F, d, B, L, cb, call):
+    """Jump threading for an inlined helper whose result is tested right after the call
+    (`if let Some(x) = helper()`, `match helper() {..}`, `if helper() {..}`): a return path of the helper that
+    assigns a constant variant / constant bool to its return place is sent directly to the matching target of the
+    caller's test, through private copies of the (linear) blocks in between. Without this, the merge at the
+    helper's single return block would hide which guard chain leads to which arm."""
+    blocks = d['blocks']
+    K = call.get('to')
+    if K is None:
+        return
+    dest = call['dest']
+    if dest.get('p'):
+        return
+    dl = dest['l']
+
+    def single_succ(b):
+        t = blocks[b]['t']
+        if t['k'] in ('goto', 'falseedge', 'falseunwind', 'drop') and t.get('to') is not None:
+            return t['to']
+        return None
+    # find the test in the caller: follow linear blocks from K
+    chainK = []
+    cur = K
+    test = None
+    for _ in range(6):
+        t = blocks[cur]['t']
+        if t['k'] == 'switch':
+            # operand must be discriminant(dest) computed in this chain, or dest itself (bool)
+            op = t['d']
+            pl = op.get('cp') or op.get('mv')
+            if pl is not None and not pl.get('p'):
+                if pl['l'] == dl:
+                    test = (cur, 'bool')
+                else:
+                    for cb_ in chainK + [cur]:
+                        for s_ in blocks[cb_]['s']:
+                            if s_.get('k') == 'assign' and s_['lhs']['l'] == pl['l'] and s_['rv']['k'] == 'discr' and \
+                                    s_['rv']['pl']['l'] == dl and not s_['rv']['pl'].get('p'):
+                                test = (cur, 'discr')
+            break
+        nxt = single_succ(cur)
+        if nxt is None:
+            break
+        chainK.append(cur)
+        cur = nxt
+    if test is None:
+        return
+    sw_block, kind = test
+    sw = blocks[sw_block]['t']
+    tmap = {v: b for v, b in sw['ts']}
+    # return place of the inlined callee is local L; find blocks assigning it a constant
+    n_callee = len(cb.blocks)
+    for a in range(B, B + n_callee):
+        val = None
+        for s_ in blocks[a]['s']:
+            if s_.get('k') == 'assign' and s_['lhs']['l'] == L and not s_['lhs'].get('p'):
+                rv = s_['rv']
+                val = None
+                if rv['k'] == 'agg' and rv.get('ak') == 'adt' and kind == 'discr':
+                    val = _STD_VARIANT_INDEX.get(rv['variant'])
+                    if val is None:
+                        adt = F.adts.get(rv['adt'])
+                        if adt:
+                            names = [v['name'] for v in adt['variants']]
+                            val = names.index(rv['variant']) if rv['variant'] in names else None
+                elif rv['k'] == 'use' and 'c' in rv['o'] and kind == 'bool' and str(rv['o']['c']) in ('true', 'false'):
+                    val = 1 if str(rv['o']['c']) == 'true' else 0
+        if val is None:
+            continue
+        # linear chain from a to the inlined return block (the one that now assigns dest and goes to K)
+        path = []
+        cur = single_succ(a)
+        ok = False
+        for _ in range(40):
+            if cur is None:
+                break
+            if cur == K:
+                ok = True
+                break
+            # no other assignment to the return place on the way
+            if any(s_.get('k') == 'assign' and s_['lhs']['l'] == L for s_ in blocks[cur]['s']):
+                break
+            path.append(cur)
+            cur = single_succ(cur)
+        if not ok or blocks[a]['t']['k'] == 'switch':
+            continue
+        target = tmap.get(val, sw['else'])
+        # private copies of path + chainK (+ the statements of the switch block), ending in goto target
+        seq = path + chainK + [sw_block]
+        first_copy = None
+        prev = None
+        for b in seq:
+            nb = {'s': _copy.deepcopy(blocks[b]['s']), 't': None}
+            idx = len(blocks)
+            blocks.append(nb)
+            if first_copy is None:
+                first_copy = idx
+            if prev is not None:
+                blocks[prev]['t'] = dict(blocks[prev]['t'], to=idx)
+            if b == sw_block:
+                nb['t'] = {'k': 'goto', 'to': target, 'line': sw.get('line'), 'threaded': True}
+            else:
+                t0 = blocks[b]['t']
+                nb['t'] = dict(_copy.deepcopy(t0))
+            prev = idx
+        # redirect a
+        ta = blocks[a]['t']
+        if ta.get('to') is not None:
+            blocks[a]['t'] = dict(ta, to=first_copy)
+
+
+def callee_name(t):
+    return t['f'].get('def') or t['f'].get('decl')
+
+
+def same_module_private(F, fn):
+    """accept-predicate for inline_helpers: non-public functions defined in the same module as fn (or nested in it)."""
+    mod = fn.rsplit('::', 1)[0]
+    mod = mod.split('::<impl')[0]
+
+    def accept(callee):
+        sig = F.fns.get(callee)
+        if sig is None or sig.get('vis') == 'pub':
+            return False
+        cmod = callee.rsplit('::', 1)[0].split('::<impl')[0]
+        return cmod == mod or cmod.startswith(mod) or mod.startswith(cmod) or callee.startswith(fn + '::')
+    return accept
+
+
+def _facts_inlined(self, fn_or_body, accept=None):
+    body = self.main_body(fn_or_body) if isinstance(fn_or_body, str) else fn_or_body
+    return inline_helpers(self, body, accept or same_module_private(self, body.root))
+
+
+Facts.inlined = _facts_inlined
